@@ -68,6 +68,7 @@ static const char* regime(const Fn& fn, double x) {
 // one accuracy observation; returns the relative error on the scale rule
 static double observe(const Fn& fn, double x, const char* origin) {
    const double v = fn.f(x);
+   { const double vrep = fn.f(x); if (!vh::same_bits(v, vrep)) { J w; w.str("fn", fn.name).d("x", x).d("first", v).d("second", vrep); out->fail(std::string("C01:") + fn.name + ":not-deterministic", std::string(fn.name) + "(" + vh::num(x) + ") gives " + vh::num(v) + " and then " + vh::num(vrep), w); } }
    const LD ref = mpref_eval1(fn.id, x);
    LD den = fabsl(ref);
    LD err = fabsl(static_cast<LD>(v) - ref) / std::max(den, static_cast<LD>(1e-300));
@@ -82,7 +83,7 @@ static double observe(const Fn& fn, double x, const char* origin) {
    out->cell(std::string(fn.name) + "|" + rg + "|" + vh::decade(x), static_cast<double>(err), &w);
    if (!(err <= fn.tol)) {
       if (below) out->count(std::string("below-domain-exceed:") + fn.name);   // outside the stated domain: reported only
-      else out->fail(finding_key(fn, x), std::string(fn.name) + "(" + vh::num(x) + ") = " + vh::num(v) + ", reference " + vh::num(ref) + ", error " + vh::num(static_cast<double>(err)) + " > " + vh::num(fn.tol), w);
+      else out->fail(finding_key(fn, x), std::string(fn.name) + "(" + vh::num(x) + ") = " + vh::num(v) + ", reference " + vh::num(ref) + ", error " + vh::num(static_cast<double>(err)) + " > " + vh::num(fn.tol), w, static_cast<double>(err));
    }
    return static_cast<double>(err);
 }
@@ -182,11 +183,22 @@ static void negatives(const Fn& fn, vh::Rng& r) {
    if (fn.id >= MPREF_dilog) return;
    const double x = -(r.chance(0.3) ? r.LU(1e-14, 1e-10) : r.LU(1e-14, 1e12));
    std::stringstream ss; std::streambuf* old = std::cerr.rdbuf(ss.rdbuf());
-   const double v = fn.f(x);
+   // a call history around the judged call: a valid call before, the same negative argument again, another function of the family with the
+   // same argument, the same function again - every evaluation of a negative argument must be NaN whatever was evaluated before
+   const double xv = r.LU(1e-3, 1e3);
+   const int other = r.range(NFN);
+   const double v0 = fn.f(xv);
+   const double v = fn.f(x), vrep = fn.f(x);
+   const double vo = FNS[other].id < MPREF_dilog ? FNS[other].f(x) : std::numeric_limits<double>::quiet_NaN();
+   const double vagain = fn.f(x);
+   const double v0again = fn.f(xv);
    std::cerr.rdbuf(old);
-   J w; w.str("fn", fn.name).d("x", x).d("value", v);
+   J w; w.str("fn", fn.name).d("x", x).d("value", v).d("repeated", vrep).str("other_fn", FNS[other].name).d("other_value", vo).d("after_other", vagain).d("valid_argument", xv);
    out->cell(std::string(fn.name) + "|negative|" + vh::decade(x), std::isnan(v) ? 0 : 1, &w);
    if (!std::isnan(v)) out->fail(std::string("C01:") + fn.name + ":negative-not-nan", std::string(fn.name) + "(" + vh::num(x) + ") = " + vh::num(v) + " instead of NaN", w);
+   const bool hist_ok = std::isnan(vrep) && std::isnan(vo) && std::isnan(vagain) && vh::same_bits(v0, v0again);
+   out->cell(std::string(fn.name) + "|negative|call-history", hist_ok ? 0 : 1, &w);
+   if (!hist_ok) out->fail(std::string("C01:") + fn.name + ":negative-not-nan:call-history", std::string(fn.name) + "(" + vh::num(x) + ") evaluated repeatedly / interleaved with " + FNS[other].name + ": " + vh::num(vrep) + ", " + vh::num(vo) + ", " + vh::num(vagain) + " (all must be NaN), valid argument before/after: " + vh::num(v0) + " / " + vh::num(v0again), w);
 }
 
 static void complex_dilog(vh::Rng& r) {
